@@ -56,10 +56,12 @@ HARNESSES = [
             outside='argschema CLI; GPU path',
             expect_reach=['mapped'], selftest=10, split=48),
     Harness('backfill_after_reduction', C03.h_backfill, setup=LL.setup,
-            cases=[{'sizes': s} for s in ([2, 3], [1, 2, 3], [2, 2, 2])],
+            cases=[{'sizes': s} for s in ([2, 3], [1, 2, 3], [2, 2, 2])]
+            + [{'sizes': [2, 2, 2], 'alias': True}],
             thorough_cases=[{'sizes': s} for s in
                             ([2, 3], [2, 2, 3], [1, 2, 3], [2, 3, 3],
-                             [2, 3, 4], [2, 2, 2, 3])],
+                             [2, 3, 4], [2, 2, 2, 3])]
+            + [{'sizes': [2, 2, 3], 'alias': True}],
             funcs=C03.FUNCS + ['TaxonomyTree.flatten', 'drop_level',
                                'backfill_assignments'],
             stubs=C03.STUBS, assumptions=C03.ASSUME, classify=C03.classify,
